@@ -30,6 +30,8 @@ def check_C16(ctx):
     progs += [b"print 1 +\nprint *\nvar x = )\n" * 5, b"def a { x = 1\n y = 2\n z = 3\n w = 4\n v = 5 }\nprint 1\n", b"print @\n"]
     # 1. twice in one process, interleaved with everything else (earlier calls must not matter)
     progs += [b"def cfg { host = 1\n port = 2\n user = 3\n pass = 4\n print hots }\n", b"def a { x = 1\n y = 2\n z = 3\n def b { w = 4\n v = 5\n print nosuch } }\n"] * 4
+    from . import interp as _interp
+    progs = _interp.drop_excluded(ctx, progs)
     cases = [dict(id="a%d" % i, src_hex=p.hex(), opts="", name="input", sticky=(i % 7 == 0)) for i, p in enumerate(progs)]
     cases += [dict(id="b%d" % i, src_hex=p.hex(), opts="", name="input") for i, p in reversed(list(enumerate(progs)))]
     base = run_probe_env(ctx, "interp", cases, {}, "inproc")
